@@ -304,4 +304,39 @@ theorem Dec.list_safe {α : Type} (elem : Dec → Res α)
   simp only [Dec.cursor] at *
   omega
 
+/-! ### one call per kind (`Dec.value`), `flat::decode` -/
+
+theorem Dec.value_safe (d : Dec) (h : d.Inv) (k : Kind) : Res.Safe d (d.value k) := by
+  cases k with
+  | bool => have := (Dec.bit_safe d h).1; simp only [Dec.value, Dec.bool]; cases hb : d.bit <;> simp_all
+  | u8 => have := Dec.u8_safe d h; simp only [Dec.value]; cases hb : d.u8 <;> simp_all
+  | bits n => have := (Dec.bits8_safe d n h).1; simp only [Dec.value]; cases hb : d.bits8 n <;> simp_all
+  | word => have := Dec.word_safe d h; simp only [Dec.value]; cases hb : d.word <;> simp_all
+  | int => have := Dec.integer_safe d h; simp only [Dec.value]; cases hb : d.integer <;> simp_all
+  | char => have := Dec.char_safe d h; simp only [Dec.value]; cases hb : d.char <;> simp_all
+  | bytes => have := Dec.bytes_safe d h; simp only [Dec.value]; cases hb : d.bytes <;> simp_all
+  | utf8 => have := Dec.utf8_safe d h; simp only [Dec.value]; cases hb : d.utf8 <;> simp_all
+  | bools =>
+    have := Dec.list_safe Dec.bool (fun d h => (Dec.bit_safe d h).1) d h
+    simp only [Dec.value]; cases hb : Dec.list Dec.bool d <;> simp_all
+  | string =>
+    have := Dec.list_safe Dec.char Dec.char_safe d h
+    simp only [Dec.value, Dec.string]; cases hb : Dec.list Dec.char d <;> simp_all
+
+theorem decode_top_total (k : Kind) (bytes : List Byte) : (decodeTop k bytes).isPanic = false := by
+  have hv := Dec.value_safe (Dec.new bytes) (Dec.inv_new bytes) k
+  unfold decodeTop
+  cases hr : (Dec.new bytes).value k with
+  | panic => rw [hr] at hv; exact absurd hv (Res.safe_panic _)
+  | err e d => rfl
+  | ok v d' =>
+    rw [hr] at hv
+    have hf := Dec.filler_safe d' hv.2.1
+    simp only
+    cases hf' : d'.filler with
+    | panic => rw [hf'] at hf; exact absurd hf (Res.safe_panic _)
+    | err e d => rfl
+    | ok u d => rfl
+
+
 end PallasVerif.Flat
